@@ -232,9 +232,12 @@ def index_width(ctx):
 
     res = ctx.tlc_must_hold("IndexWidth", "IndexWidth.cfg", what="Threshold (keys exact / monotone exactly when N*N fits the key type)", workers=4)
     ctx.tlc_must_fail("IndexWidth", "IndexWidth_neg_injective.cfg", expect="InjectiveIsEnough")
+    ctx.tlc_must_fail("IndexWidth", "IndexWidth_neg_blocks.cfg", expect="PairedStartsCover")
     for case in sorted(res.prints.get("CASE", []), key=lambda c: (c["cfg"]["size"], c["cfg"]["itype"])):
         itype, size = case["cfg"]["itype"], case["cfg"]["size"]
-        nx, ny = (160, 150) if size == "over32" else (6, 5)
+        if size == "blocks" and itype == "int32":
+            continue  # the block summation does not depend on the index type: one large system is enough
+        nx, ny = {"over32": (160, 150), "blocks": (270, 262)}.get(size, (6, 5))   # "blocks": 70 209 elements x 64 entries = 4.49e6 > 2^22
         dofn = 2
         ndof = nx * ny * dofn
         if not (case["ndofAtLeast"] <= ndof <= case["ndofAtMost"]):
@@ -267,7 +270,7 @@ def index_width(ctx):
             err = np.abs(diff.data).max(initial=0.0)
             if K.shape != ref.shape or err > 0:
                 bad = int(np.count_nonzero(diff.data))
-                ctx.violation(f"index-width/{itype}/{size}", f"{ndof} dofs, connectivity of {itype}: the assembled matrix (assembly #{rep + 1}) differs from the sum formed with 64-bit indices in {bad} entries (max {err:.3g}); N*N = {ndof * ndof} {'exceeds' if ndof * ndof > 2**31 else 'fits'} 2^31", {"itype": itype, "size": size, "ndof": ndof})
+                ctx.violation(f"index-width/{itype}/{size}", f"{ndof} dofs, connectivity of {itype}: the assembled matrix (assembly #{rep + 1}) differs from the sum formed with 64-bit indices in {bad} entries (max {err:.3g}); N*N = {ndof * ndof} {'exceeds' if ndof * ndof > 2**31 else 'fits'} 2^31; {Ke.size} element entries", {"itype": itype, "size": size, "ndof": ndof})
                 break
         ctx.count(2, distinct_key=("index-width", itype, size))
     ctx.section("index_width", cases=[c["cfg"] for c in res.prints.get("CASE", [])], large_system_dofs=160 * 150 * 2)
